@@ -4,6 +4,8 @@ import WS.Model.MaskProg
 import WS.Gen.MaskProg
 import WS.Model.Reader
 import WS.Spec.Inflate
+import WS.Gen.IntFns
+import WS.Model.Writer
 /-
   Command table of the driver.  Every command is a pure function String → String.
 -/
@@ -89,6 +91,103 @@ def cmdInflate (args : List String) : String :=
     | _, _ => "bad-args"
   | _ => "bad-args"
 
+def b01 (b : Bool) : String := if b then "1" else "0"
+
+/-- `valid-code n` → model and regenerated function -/
+def cmdValidCode (args : List String) : String :=
+  match args with
+  | [n] =>
+    match parseInt? n with
+    | some n =>
+      let g := match Gen.validWireCloseCode.eval n with | some b => b01 b | none => "none"
+      s!"ok {b01 (Model.validWireCloseCode n)} {g}"
+    | none => "bad-args"
+  | _ => "bad-args"
+
+/-- `close-bytes code reason` → bytesErr result and writeClose payload -/
+def cmdCloseBytes (args : List String) : String :=
+  match args with
+  | [c, r] =>
+    match parseInt? c, ofHex r with
+    | some c, some r =>
+      let a := match Model.closeBytesErr c r with | some p => "some:" ++ toHex p | none => "none"
+      let b := match Model.writeClosePayload c r with | some p => "some:" ++ toHex p | none => "none"
+      let cb := Model.closeBytes c r
+      s!"ok {a} {b} {toHex cb.1} {b01 cb.2}"
+    | _, _ => "bad-args"
+  | _ => "bad-args"
+
+def cmdCloseParse (args : List String) : String :=
+  match args with
+  | [p] =>
+    match ofHex p with
+    | some p =>
+      match Model.parseClosePayload p with
+      | .ok c r => s!"ok {c} {toHex r}"
+      | .bad => "bad"
+    | none => "bad-args"
+  | _ => "bad-args"
+
+def hdrStr (h : Model.Header) : String :=
+  s!"{b01 h.fin} {b01 h.rsv1} {b01 h.rsv2} {b01 h.rsv3} {h.opcode} {h.len} {b01 h.masked} {toHex h.key}"
+
+/-- `hdr-enc fin r1 r2 r3 op len masked key` → bytes -/
+def cmdHdrEnc (args : List String) : String :=
+  match args with
+  | [f, r1, r2, r3, op, len, m, k] =>
+    match op.toNat?, len.toNat?, ofHex k with
+    | some op, some len, some k =>
+      "ok " ++ toHex (Model.encodeHeader { fin := f == "1", rsv1 := r1 == "1", rsv2 := r2 == "1", rsv3 := r3 == "1",
+                                           opcode := op, len := len, masked := m == "1", key := k })
+    | _, _, _ => "bad-args"
+  | _ => "bad-args"
+
+/-- `hdr-dec bytes` → header fields and the number of bytes left -/
+def cmdHdrDec (args : List String) : String :=
+  match args with
+  | [b] =>
+    match ofHex b with
+    | some b =>
+      match Model.decodeHeader b with
+      | .ok h rest => s!"ok {hdrStr h} {rest.length}"
+      | .needMore => "needmore"
+      | .negative => "negative"
+    | none => "bad-args"
+  | _ => "bad-args"
+
+def hexList (s : String) : Option (List Bytes) :=
+  if s == "" then some [] else (s.splitOn ",").mapM ofHex
+
+def chunk4 : Bytes → List Bytes
+  | a :: b :: c :: d :: rest => [a, b, c, d] :: chunk4 rest
+  | _ => []
+
+def parseWOp (s : String) : Option Model.WOp :=
+  match s.splitOn ":" with
+  | ["m", typ, vw, chunks, obs] => do
+    let t ← typ.toNat?
+    let cs ← hexList chunks
+    let os ← hexList obs
+    some (.msg t (vw == "1") cs os)
+  | ["p", p] => (ofHex p).map .ping
+  | ["o", p] => (ofHex p).map .pong
+  | ["c", code, r] => do
+    let c ← parseInt? code
+    let r ← ofHex r
+    some (.close c r)
+  | _ => none
+
+/-- `writer client flate takeover threshold keys ops` → the bytes the model puts on the wire -/
+def cmdWriter (args : List String) : String :=
+  match args with
+  | [cl, fl, tk, th, keys, ops] =>
+    match th.toNat?, ofHex keys, (if ops == "-" then some [] else (ops.splitOn ";").mapM parseWOp) with
+    | some th, some keys, some ops =>
+      let cfg : Model.WCfg := { client := cl == "1", flate := fl == "1", takeover := tk == "1", threshold := th }
+      "ok " ++ toHex (Model.writerBytes cfg ops (chunk4 keys))
+    | _, _, _ => "bad-args"
+  | _ => "bad-args"
+
 def handle (line : String) : String :=
   match line.splitOn " " with
   | [] => "bad-op"
@@ -98,6 +197,12 @@ def handle (line : String) : String :=
     | "maskprog" => cmdMaskProg args
     | "reader" => cmdReader args
     | "inflate" => cmdInflate args
+    | "valid-code" => cmdValidCode args
+    | "close-bytes" => cmdCloseBytes args
+    | "close-parse" => cmdCloseParse args
+    | "hdr-enc" => cmdHdrEnc args
+    | "hdr-dec" => cmdHdrDec args
+    | "writer" => cmdWriter args
     | "ping" => "pong"
     | _ => "bad-op"
 
